@@ -113,7 +113,8 @@ func Render(n Node, style int, c *Conc) []byte {
 func render(b *bytes.Buffer, n Node, style int, top bool, parentNs string, c *Conc) {
 	if n.Name == "#text" {
 		t := c.C(n.Text)
-		if style == 3 && !strings.Contains(t, "]]>") && t != "" {
+		// (a carriage return can only be written as a character reference: unescaped, every XML reader turns it into a line feed)
+		if style == 3 && !strings.Contains(t, "]]>") && !strings.Contains(t, "\r") && t != "" {
 			b.WriteString("<![CDATA[" + t + "]]>")
 		} else {
 			b.WriteString(Esc(t))
